@@ -622,6 +622,7 @@ pub fn gen_source(seed: u64, i: usize) -> String {
     k.loops = true;
     k.ifs = true;
     k.shadowing = true;
+    k.dim_exprs = true;
     k.arrays = r.chance(2, 3);
     k.compound = true;
     k.max_depth = 1 + r.usize(3);
